@@ -113,6 +113,12 @@ pub fn check_gate(g: &GateCase) -> Check {
         _ => {}
     }
     let good_in = r.is_ok();
+    // every second case: the package is saved and reopened here, so that the
+    // candidate meets the schema as it is read back, not as it was built
+    if g.upd_col % 2 == 0 {
+        let cur = pkg.into_inner().map_err(|e| Fail::new(format!("{P} harness-save"), e.to_string()))?;
+        pkg = Package::open(Cursor::new(cur.into_inner())).map_err(|e| Fail::new(format!("{P} harness-reopen"), format!("the package with table {:?} does not reopen: {e}", g.cols)))?;
+    }
     // 2. the candidate row (invalid value, wrong arity, or duplicate key)
     let key_of = |row: &[V]| -> Vec<V> { g.cols.iter().zip(row.iter()).filter(|(c, _)| c.key).map(|(_, v)| v.clone()).collect() };
     let dup = good_in && g.cand.len() == n && key_of(&g.cand) == key_of(&g.good);
@@ -302,7 +308,7 @@ fn coldef_strategy(name: &'static str, key: bool) -> impl Strategy<Value = ColDe
         any::<bool>(),
         prop_oneof![3 => Just(None), 1 => (-40i32..40, -40i32..40).prop_map(Some), 1 => Just(Some((-32767, 32767))), 1 => Just(Some((1, 32)))],
         prop_oneof![3 => Just(None), 2 => (0u8..26).prop_map(|i| Some(Cat(i))), 2 => prop::sample::select(Cat::with_grammar()).prop_map(Some)],
-        prop_oneof![4 => Just(vec![]), 1 => Just(vec!["a".to_string(), "B".to_string(), "12".to_string()]), 1 => Just(vec!["Y".to_string(), "N".to_string()])],
+        prop_oneof![4 => Just(vec![]), 1 => Just(vec!["a".to_string(), "B".to_string(), "12".to_string()]), 1 => Just(vec!["Y".to_string(), "N".to_string()]), 1 => Just(vec![" b".to_string(), "c ".to_string(), "b".to_string(), "d e".to_string()])],
     )
         .prop_map(move |(ty, nullable, range, category, enums)| {
             let mut c = ColDef::new(name, ty);
